@@ -42,6 +42,8 @@ fn for_each_layout(thorough: bool, f: &mut dyn FnMut(&str, Layout)) -> u64 {
   let nums: Vec<i32> = vec![0, 1, 180, i32::MAX, -1, i32::MIN];
   let mut repeats: Vec<Repeat> = vec![Repeat::Normal, Repeat::Disabled];
   for keys in [vec![], vec![F21], vec![LEFTCTRL, F21]] { for d in &nums { for i in &nums { repeats.push(Repeat::Special { keys: keys.clone(), delay_ms: *d, interval_ms: *i }); } } }
+  // chords the converter can produce and the mapper accepts: repeated keys, three and four keys, descending order
+  for keys in [vec![LEFTSHIFT, LEFTSHIFT, A], vec![A, A], vec![F21, F21, F21], vec![LEFTCTRL, LEFTSHIFT, F21], vec![RIGHTCTRL, LEFTALT, LEFTSHIFT, K1], vec![K1, K1]] { repeats.push(Repeat::Special { keys, delay_ms: 7, interval_ms: 9 }); }
   for fr in &froms { for to in &tos { for rp in &repeats {
     let mods = &fr[..fr.len() - 1];
     // absorbing: every subset of the trigger modifiers
@@ -56,7 +58,7 @@ fn for_each_layout(thorough: bool, f: &mut dyn FnMut(&str, Layout)) -> u64 {
   // (c) everything the converter produces from the fixed corpus
   for nl in fixed_corpus() { f("converted-corpus", nl.layout); }
   // (d) converter outputs of generated alias/row programs (C13's generator, reduced)
-  if thorough { for l in crate::c13::converted_outputs_for_c15() { f("converted-generated", l); } }
+  for l in crate::c13::converted_outputs_for_c15(thorough) { f("converted-generated", l); }
   codes.len() as u64
 }
 
@@ -138,7 +140,7 @@ pub fn run(ctx: &Ctx) -> Outcome {
   o.cov("mappings_round_tripped", e.mappings);
   o.cov("key_codes_covered", e.key_codes);
   o.cov("exhaustive", true);
-  o.cov("rule", "every key code KeyCode::from_u16 knows, each in trigger-final, trigger-modifier, output-final, output-modifier, repeat-key and absorbing position; the shape family |from| 1-3 x |to| 0-3 x repeat {Normal, Disabled, Special with 0-2 keys and delay/interval over {0,1,180,i32::MAX,-1,i32::MIN}} x every absorbing subset of the trigger modifiers; a 40-mapping order test; the empty layout; every converted layout of the fixed corpus (thorough: plus converter outputs of generated alias/row programs). Saved, reloaded with the real load_layout_from_file, compared as values in order. distinct_nontrivial = distinct non-empty layouts (by serialised value).".to_string());
+  o.cov("rule", "every key code KeyCode::from_u16 knows, each in trigger-final, trigger-modifier, output-final, output-modifier, repeat-key and absorbing position; the shape family |from| 1-3 x |to| 0-3 x repeat {Normal, Disabled, Special with 0-2 keys and delay/interval over {0,1,180,i32::MAX,-1,i32::MIN}} x every absorbing subset of the trigger modifiers; a 40-mapping order test; the empty layout; every converted layout of the fixed corpus; the converter's outputs for every 23rd (thorough: every 3rd) program of C13's grammar. Saved, reloaded with the real load_layout_from_file, compared as values in order. distinct_nontrivial = distinct non-empty layouts (by serialised value).".to_string());
   o.cov("samples", json!(e.samples));
   o.assumptions = vec!["the scratch-file tier trusts that the installer serialises with serde_json::to_writer_pretty(keys::Layout); the namespace tier calls the real private function".into()];
   let mut seen = std::collections::BTreeSet::new();
